@@ -1793,6 +1793,9 @@ def _re_method(interp, regex, name, args):
             return result
 
         return compiled.sub(call_back, text)
+    if name in ("match", "search", "fullmatch") and len(args) == 1 and isinstance(args[0], str):
+        found = getattr(_re.compile(regex.pattern, regex.flags), name)(args[0])
+        return None if found is None else _MatchObj(found)
     hook = interp.externals.get("re." + name)
     if hook is not None:
         return hook(interp, [regex] + list(args), {})
@@ -2196,6 +2199,20 @@ def _iseof(interp, args, kwargs):
     if not _is_int(value):
         raise Undecided("ISEOF of %r" % (value,))
     return _tokenize.ISEOF(value)
+
+
+def _re_function(name):
+    def function(interp, args, kwargs):
+        flags = kwargs.get("flags", args[2] if len(args) > 2 else 0)
+        if len(args) < 2 or not isinstance(args[0], str) or not isinstance(args[1], str) or not _is_int(flags):
+            raise Undecided("re.%s with abstract arguments" % name)
+        return _re_method(interp, ReObj(args[0], flags), name, [args[1]])
+
+    return function
+
+
+for _name in ("match", "search", "fullmatch"):
+    _DEFAULT_EXTERNALS["re." + _name] = _re_function(_name)
 
 
 @_ext("re.compile")
